@@ -176,6 +176,12 @@ type Finding struct {
 }
 
 // LoadFindings reads the known-findings file (never written at run time).
+// Format, one entry per line:
+//
+//	fixed: property=<id> <commit> <what failed>
+//	known: property=<id> construct=<rule|func|kind|line|ordinal> :: <what fails>
+//
+// Only "known" entries suppress anything, and only the exact construct they name.
 func LoadFindings(path string) ([]Finding, error) {
 	f, err := os.Open(path)
 	if err != nil {
@@ -188,16 +194,32 @@ func LoadFindings(path string) ([]Finding, error) {
 	var out []Finding
 	sc := bufio.NewScanner(f)
 	sc.Buffer(make([]byte, 1<<20), 1<<20)
+	n := 0
 	for sc.Scan() {
+		n++
 		line := strings.TrimSpace(sc.Text())
 		if line == "" || strings.HasPrefix(line, "#") {
 			continue
 		}
-		var fd Finding
-		if err := json.Unmarshal([]byte(line), &fd); err != nil {
-			return nil, fmt.Errorf("%s: %v", path, err)
+		switch {
+		case strings.HasPrefix(line, "fixed: property="):
+			rest := strings.TrimPrefix(line, "fixed: property=")
+			parts := strings.SplitN(rest, " ", 3)
+			if len(parts) < 3 {
+				return nil, fmt.Errorf("%s:%d: malformed fixed entry", path, n)
+			}
+			out = append(out, Finding{Property: parts[0], Commit: parts[1], What: parts[2], Status: "fixed"})
+		case strings.HasPrefix(line, "known: property="):
+			rest := strings.TrimPrefix(line, "known: property=")
+			i := strings.Index(rest, " construct=")
+			j := strings.Index(rest, " :: ")
+			if i < 0 || j < i {
+				return nil, fmt.Errorf("%s:%d: malformed known entry", path, n)
+			}
+			out = append(out, Finding{Property: rest[:i], Construct: rest[i+len(" construct=") : j], What: rest[j+4:], Status: "known"})
+		default:
+			return nil, fmt.Errorf("%s:%d: unrecognised entry", path, n)
 		}
-		out = append(out, fd)
 	}
 	return out, sc.Err()
 }
@@ -326,8 +348,8 @@ func (c *Ctx) Finish(verifDir, tier string, seed int64, started time.Time, findi
 			"lock objects are identified by mutex field (one object of each guarded type per function)",
 			"test override hooks (establishRegionOverride, sleepAndIncreaseBackoffOverride) are nil in production",
 		}, c.Assume...),
-		"wall_s":      time.Since(started).Seconds(),
-		"violations":  res.Violations,
+		"wall_s":     time.Since(started).Seconds(),
+		"violations": res.Violations,
 	}
 	b, _ := json.MarshalIndent(ev, "", " ")
 	os.WriteFile(filepath.Join(verifDir, "evidence", c.Prop+".json"), b, 0o644)
